@@ -21,6 +21,14 @@
 //	    the configured profile as this harness computes them>"; anchored: the first token is not earlier
 //	    than (instant just before the first Next) + its configured offset (and within 200 ms of it).
 //
+//	wait <spec> <w0,w1,...>
+//	    the real coreutil.Waiter over the real, un-Started schedule built from <spec>, driven the way the
+//	    start loop drives it: Wait; then the caller is busy for w_i ms after the i-th successful Wait (a
+//	    slow creation: the tokens behind it are handed out late), "-" = never busy.  Observation:
+//	    "<n> <notearly> <onprofile>": successful Waits; every Wait returned at or after the instant of its
+//	    token; every Wait number i returned at or after (instant just before the first Next) + offset of
+//	    token i in the CONFIGURED profile.
+//
 //	start <perinst 0|1> <T> <rps-spec> <A> <K> <startup-spec> <shoot_us> <cancel_ms> <failgun> <provrun> [<slow>]
 //	    runs the real engine.Engine (one pool). T = tokens of one rps profile (-1: not finite),
 //	    A = ammo items: "<n>" n items (non-nil values), "n<n>" n items whose value is nil (a provider for
@@ -498,6 +506,39 @@ func runIstep(f []string) string {
 	return fmt.Sprintf("%d %s", total, sb.String())
 }
 
+func runWait(f []string) string {
+	st := &startSched{inner: buildSched(f[1])}
+	var works []time.Duration
+	if f[2] != "-" {
+		for _, x := range strings.Split(f[2], ",") {
+			works = append(works, ms(x))
+		}
+	}
+	exp := expectedOffsets(f[1])
+	w := coreutil.NewWaiter(st)
+	ctx := context.Background()
+	var rets []time.Time
+	for i := 0; i < 100000; i++ {
+		if !w.Wait(ctx) {
+			break
+		}
+		rets = append(rets, time.Now())
+		if i < len(works) && works[i] > 0 {
+			time.Sleep(works[i])
+		}
+	}
+	notEarly, onProfile := true, true
+	for i, r := range rets {
+		if i >= len(st.toks) || r.Before(st.toks[i]) {
+			notEarly = false
+		}
+		if i >= len(exp) || r.Before(st.firstCall.Add(exp[i])) {
+			onProfile = false
+		}
+	}
+	return fmt.Sprintf("%d %s %s", len(rets), vh.B(notEarly), vh.B(onProfile))
+}
+
 var errFactory = errors.New("gun factory failure (injected)")
 var errSchedFactory = errors.New("rps schedule factory failure (injected)")
 
@@ -723,6 +764,8 @@ func runCase(c string) string {
 		return runIstep(f)
 	case f[0] == "start" && (len(f) == 11 || len(f) == 12):
 		return runStart(f)
+	case f[0] == "wait" && len(f) == 3:
+		return runWait(f)
 	case f[0] == "drain" && len(f) == 2:
 		return runDrain(f)
 	case f[0] == "fincb" && len(f) == 4:
@@ -825,6 +868,47 @@ func gen(r *vh.Rand, tier string) []string {
 			to = from + step*r.Range(0, 8)
 		}
 		out = append(out, fmt.Sprintf("istep %d %d %d %d", from, to, step, r.PickInt([]int{1, 7, 10, 1000, 60000})))
+	}
+	// the Waiter under a busy caller: one slow step (D) makes the tokens behind it late; the profile then pauses
+	// for less than D, between D and 2D, more than 2D
+	nw := 40
+	if tier == "thorough" {
+		nw = 600
+	}
+	for i := 0; i < nw; i++ {
+		D := r.PickInt([]int{4, 10, 20, 30})
+		P := r.PickInt([]int{D / 2, D + D/4, D + D/2, 2*D - D/5, 3 * D})
+		var st string
+		switch r.Intn(5) {
+		case 0:
+			st = fmt.Sprintf("once:%d+const:0:%d+once:%d", r.Range(2, 4), P, r.Range(1, 3))
+		case 1:
+			st = fmt.Sprintf("istep:%d:%d:%d:%d", r.Range(1, 3), r.Range(3, 8), r.Range(1, 2), P)
+		case 2:
+			st = fmt.Sprintf("once:%d+const:0:%d+const:%d:%d", r.Range(1, 3), P, r.PickInt([]int{100, 200, 500}), r.PickInt([]int{20, 40}))
+		case 3:
+			st = fmt.Sprintf("const:%d:%d", r.PickInt([]int{100, 200, 500}), r.PickInt([]int{30, 60}))
+		default:
+			st = fmt.Sprintf("once:%d+const:0:%d+once:1+const:0:%d+once:%d", r.Range(1, 3), P, r.PickInt([]int{D / 2, D, 2 * D}), r.Range(1, 2))
+		}
+		k := startupCount(st)
+		works := make([]string, 0, k)
+		slowAt := r.Intn(3) // which Wait is followed by the slow step
+		for j := 0; j < k && j <= slowAt+2; j++ {
+			switch {
+			case j == slowAt:
+				works = append(works, strconv.Itoa(D))
+			case r.Chance(1, 4):
+				works = append(works, strconv.Itoa(r.Range(1, 3)))
+			default:
+				works = append(works, "0")
+			}
+		}
+		ws := "-"
+		if len(works) > 0 && r.Chance(9, 10) {
+			ws = strings.Join(works, ",")
+		}
+		out = append(out, fmt.Sprintf("wait %s %s", st, ws))
 	}
 	drained := map[string]bool{}
 	for i := 0; i < ns; i++ {
